@@ -199,6 +199,32 @@ func c19StripMarks(lines []string) []string {
 	return out
 }
 
+// c19OnlyMixedMarks: the two dumps differ in nothing but the exclusive-policy marker, and only on
+// CPUs whose holders disagreed on the policy at some point of the history.
+func c19OnlyMixedMarks(a, b []string, mixed map[int]bool) bool {
+	if !c19SameLines(c19StripMarks(a), c19StripMarks(b)) {
+		return false
+	}
+	for i := range a {
+		if a[i] == b[i] || !strings.HasPrefix(a[i], "cpus ") {
+			continue
+		}
+		fa, fb := strings.Fields(a[i][5:]), strings.Fields(b[i][5:])
+		if len(fa) != len(fb) {
+			return false
+		}
+		for j := 0; j+3 <= len(fa); j += 3 {
+			if fa[j+2] != fb[j+2] {
+				c, _ := strconv.Atoi(fa[j])
+				if !mixed[c] {
+					return false
+				}
+			}
+		}
+	}
+	return true
+}
+
 func c19SameLines(a, b []string) bool {
 	if len(a) != len(b) {
 		return false
@@ -263,6 +289,7 @@ func TestVerifC19Numa(t *testing.T) {
 		objs := map[int]*c19Obj{}
 		nextUID := 1
 		mixedExclShare := false // two holders of one CPU disagree on the exclusive policy
+		mixedCPUs := map[int]bool{} // CPUs that were at some point held concurrently under different policies
 		refs := func() map[int]int {
 			m := map[int]int{}
 			for _, o := range objs {
@@ -401,6 +428,7 @@ func TestVerifC19Numa(t *testing.T) {
 							for _, c2 := range o.alloc.cpus {
 								if c2 == c {
 									mixedExclShare = true
+									mixedCPUs[c] = true
 								}
 							}
 						}
@@ -538,6 +566,7 @@ func TestVerifC19Numa(t *testing.T) {
 								for _, c2 := range o2.alloc.cpus {
 									if c2 == c {
 										mixedExclShare = true
+										mixedCPUs[c] = true
 									}
 								}
 							}
@@ -633,7 +662,7 @@ func TestVerifC19Numa(t *testing.T) {
 			}
 			// ---- oracle 2: rebuilt state identical to the live state
 			if !c19SameLines(got, live) {
-				if c19SameLines(c19StripMarks(got), c19StripMarks(live)) {
+				if c19OnlyMixedMarks(got, live, mixedCPUs) {
 					h.Fail("C19:numa-excl-mark-last-writer", "rebuilt ledger differs from the live one only in the exclusive-policy marker of a CPU held by pods with different policies: live=%v rebuilt=%v", live, got)
 				} else {
 					h.Fail("C19:numa-rebuilt-differs", "live=%v rebuilt=%v", live, got)
@@ -643,7 +672,7 @@ func TestVerifC19Numa(t *testing.T) {
 			if round == 0 {
 				first = got
 			} else if !c19SameLines(got, first) {
-				if c19SameLines(c19StripMarks(got), c19StripMarks(first)) {
+				if c19OnlyMixedMarks(got, first, mixedCPUs) {
 					h.Fail("C19:numa-excl-mark-last-writer", "two delivery orders differ only in the exclusive-policy marker of a shared CPU: %v vs %v", first, got)
 				} else {
 					h.Fail("C19:numa-order-dependent", "two delivery orders rebuild different ledgers: %v vs %v", first, got)
